@@ -179,6 +179,29 @@ add("C12", "server handshake",
     "trusted: engine translation, z3, object-level net/http model, reference head parser and predicates",
     ["a Sec-WebSocket-Version list that contains 13 among other versions", "malformed token lists (empty elements)"])
 
+add("C07", "untrusted input never panics / hangs / over-allocates",
+    [H("vfH_parsers_nopanic", ["parsers-end"], 400), H("vfH_frame_nopanic", ["frame-nopanic-end"], 300), H("vfH_read_step_data", ["step-accepted", "step-protocol-error"], 500),
+     H("vfH_read_step_ctl", ["ctl-protocol-error", "ctl-close"], 500), H("vfH_connect_reply", ["connect-reply-end"]), H("vfH_dial_reply", ["dial-reply-end"], 400), TWIN("vfH_parsers_nopanic"), TWIN("vfH_frame_nopanic")],
+    [H("vfH_parsers_nopanic", ["parsers-end"], 3000, {"N": 8}), H("vfH_read_step_data", ["step-accepted"], 1800, {"tier": 1}), H("vfH_read_step_ctl", ["ctl-close"], 2400, {"tier": 1})],
+    ["frame bytes: the inductive reader step (any state, every first-two-byte value, every extended length, every key, control payloads per C04) runs with runtime checks (nil, index, slice, divide, type assertion, explicit panic) as feasibility queries, an allocation bound of 600-700 bytes and the step structure 'an error is returned or input is consumed'; plus one data frame of claimed length 1, 2 or >= 16384 (up to 2^64-1, any length form) followed by 2 bytes, read by ReadMessage / NextReader+Read / JoinMessages with allocation bound 1100 bytes and unwinding bound 200",
+     "header values: tokenListContainsValue, parseExtensions, nextTokenOrQuoted, equalASCIIFold, Subprotocols, isValidChallengeKey, hostPortNoPort, selectSubprotocol on every string of <= 6 (thorough 8) arbitrary bytes; unwinding bound 4n+16, allocation bound 64+4n",
+     "CONNECT reply and Dial reply: arbitrary 3-digit status, optional space and 2-byte reason phrase, header values from templates"],
+    ["panics, loops and allocation inside net/http, net/url, compress/flate, encoding/json (modelled or not executed)", "wall-clock hangs (the unwinding bound stands in for them)", "arbitrary compressed payloads (outside the stored-block model)", "mid-range claimed lengths 3..16383 in the ReadMessage program (covered for header handling by the inductive step)"],
+    ASSUME_COMMON + [CLOCK], STUB_COMMON + ["net/http.ReadResponse / Request.Write -> object-level models consuming/producing the head bytes"],
+    LV + "The assertion is implicit: no feasible path ends in a panic, exceeds its declared unwinding bound or allocates beyond the declared bound.",
+    "trusted: engine's encoding of Go's runtime checks, z3; stubbed packages are outside")
+
+DIAL_BOUNDS = ["DialContext executed on configurations and replies one (thorough: two) dimension(s) away from a plain successful ws:// dial: URL shapes (port, IPv6 literal, query, empty path), bad schemes (http, any two lower-case letters) and userinfo, wss with ServerName / InsecureSkipVerify / NetDialTLSContext and TLS handshake / verification failure, NetDial / NetDialContext / default dialer, http / https proxy with none / user / user:password credentials and ws / wss backend, Subprotocols, EnableCompression, HandshakeTimeout, context deadline (symbolic), benign caller headers, each protocol-owned caller header in canonical / RFC / lower-case spelling, reply status (any 3-digit code, optional reason), Upgrade / Connection line variants, wrong (28 arbitrary characters) or missing Accept, extension reply variants, subprotocol, refused handshake with a body of 0 / 10 / 1024 / 1500 bytes, dial error, request write error, transport fault at each of the first 3 write-side operations, two server frames glued to the 101 response"]
+DIAL_OUT = ["url.Parse, Request.Write serialisation, http.ReadResponse parsing, cookies: modelled at object level on template inputs", "certificate validation itself (crypto/tls), SOCKS5 negotiation (x/net/proxy), environment proxies, DNS", "SHA-1 as a function (uninterpreted, collision-free)"]
+DIAL_STUBS = STUB_COMMON + ["net/url.Parse -> answers from the harness's template knowledge", "(*http.Request).Write / http.ReadResponse -> object-level models that produce / consume the head bytes on the scripted connection", "crypto/tls Client/HandshakeContext/VerifyHostname/Close -> call-trace model (Close closes the wrapped connection, as documented)", "context, httptrace -> harness types", "crypto/sha1 -> uninterpreted function"]
+
+add("C14", "client handshake",
+    [H("vfH_dial_logic", ["dial-success", "dial-refused", "dial-malformed", "dial-forbidden-header"], 600), H("vfH_tokenlist_diff", ["tokenlist-end"], 300), TWIN("vfH_dial_logic")],
+    [H("vfH_dial_logic", ["dial-success", "dial-refused"], 3400, {"tier": 1})],
+    DIAL_BOUNDS, DIAL_OUT, ["transports obey the io contracts", "the reply head is well-formed HTTP for the template values"], DIAL_STUBS,
+    LV + "Reduced scope: the decision logic of Dial and the request object handed to net/http; serialisation and URL parsing are outside.",
+    "trusted: engine translation, z3, object-level models of net/http, net/url, crypto/tls")
+
 NA = {}
 
 json.dump(checks, open("checks.json", "w"), indent=1)
